@@ -3,6 +3,7 @@
 Monitor: socket identity in the FakeNet ledger + pool.used/pool.free (public properties)
 after every call + a virtual pool clock.  Offline checker over single-threaded histories of
 PooledClient operations with per-operation faults and idle gaps."""
+import ast
 import random
 
 from vk import catalogue, common, driver, fakenet, history
@@ -255,8 +256,29 @@ def random_history(res, rng, tier):
     record(res, case, o, nt, sample=res.evaluations % 1501 == 0)
 
 
+def race_section(res, tier):
+    """two threads: a slow call hands its connection back while another thread checks one out.  The idle period starts
+    when the release begins; explored with C08's deterministic scheduler (all schedules with <= 2 preemptions)."""
+    from checks import c08
+    from vk import sched as S
+    S.install(c08.pool_codes(), "line")
+    for programs in ((("slow_use",), ("get_release",)), (("slow_use",), ("slow_use",)), (("slow_use", "get_release"), ("get_release",))):
+        for ms in (2, None):
+            case = ("pool", programs, ms, 5)
+            sub = common.Result()
+            c08.explore(sub, case, 2, "line", 4000 if tier == "quick" else 40000)
+            res.count("race_schedules_executed", sub.counters.get("schedules_executed", 0))
+            res.evaluations += sub.evaluations
+            res.nontrivial |= sub.nontrivial
+            for v in sub.violations:
+                res.violations.append({"key": "race:" + v["key"], "message": v["message"], "case": repr(("race", ast.literal_eval(v["case"])))})
+                res.count("violations_seen")
+
+
 def shard(tier, seed, idx, n):
     res = common.Result()
+    if idx == n - 1:
+        race_section(res, tier)
     work = 0
     cat = [(l, op) for l, op in catalogue.ops_catalogue() if catalogue.supports("pooled", op[0])]
     for ci, cfg in enumerate(cfgs()):
@@ -279,6 +301,18 @@ def shard(tier, seed, idx, n):
 
 def replay(case):
     res = common.Result()
+    if isinstance(case, tuple) and case[0] == "race":
+        from checks import c08
+        from vk import sched as S
+        c, forced, mode = case[1]
+        S.install(c08.pool_codes(), mode)
+        sch, viol, mon, ok = c08.run_case(c, forced, mode)
+        for key, msg in viol:
+            res.violation("race:%s:%s" % (key, c[0]), msg, case)
+        res.case(("replay",))
+        for cn in REQUIRED_COUNTERS:
+            res.count(cn)
+        return res
     o = execute(case)
     record(res, case, o, ("replay",))
     print("outcomes:", [r["out"] for r in o.calls])
